@@ -336,11 +336,18 @@ def case_suspended(ctx, rng, c):
     for s in range(rng.choice([1, 2])):
         cl += script(rng, 0, s)
     cl += [(C('q', A('qa')), ('true',)), (C('q', A('qb')), ('true',))]
-    load = [('load', cl, True), ('assert_fact', C('p', A('dyn')), True)]
+    load = [('load', cl, True), ('assert_fact', C('p', A('dyn')), True),
+            # dynamic facts with variables below the top level: simultaneous uses must not constrain each other
+            ('assert_fact', C('same', C('box', V('FV')), C('box', V('FV'))), True),
+            ('assert_fact', C('same', V('FW'), gen.L([V('FW'), A('x')])), True)]
     k = rng.choice([2, 3, 4])
     qs = []
     for i in range(k):
-        name = rng.choice(['t', 't', 'p', 'q'])
+        name = rng.choice(['t', 't', 'p', 'q', 'same'])
+        if name == 'same':
+            qs.append([('start', i, 'same', [rng.choice([C('box', A('k%d' % i)), V('S%d' % i), A('k%d' % i)]), V('T%d' % i)])]
+                      + [('next', i)] * rng.choice([2, 3]) + [('close', i)])
+            continue
         args = [V('S%d' % i)] if name != 'p' or rng.random() < 0.7 else [V('S%d' % i), V('T%d' % i)]
         qs.append([('start', i, name, args)] + [('next', i)] * rng.choice([2, 3, 5]) + [('close', i)])
     solos = []
